@@ -60,3 +60,27 @@ func init() {
 		},
 	})
 }
+
+// C13.passthru — the shape in which a lost serialisation becomes a data race inside the library: a source
+// built with a serialising constructor and fed by several goroutines, subscribed through an operator that hands
+// its own lock-free subscriber straight to the source, followed by an operator that keeps state without a lock
+// of its own. (Run by C02.safe's executor; only the race detector's reports are judged under C13.)
+func init() {
+	Register(&Family{
+		Name:   "C13.passthru",
+		Props:  []string{"C13"},
+		Weight: 12,
+		Gen: func(g *Gen) *Scn {
+			sc := &Scn{Family: "C13.passthru"}
+			sc.Sub = g.Pick("eventually", "eventually", "safe", "default")
+			sc.Sources = []SrcSpec{{Mode: "async", Ctor: sc.Sub, CtorAPI: g.PickInt(0, 0, 1, 2), Producers: g.Range(2, 3), Script: genScript(g, 10, 3, "CE--", false)}}
+			sc.Stages = []StageSpec{
+				{Op: g.Pick("StartWith", "TapOnFinalize", "TapOnSubscribe", "Defer", "Catch"), P: []int{1}},
+				{Op: g.Pick("Scan", "MapI", "Distinct", "Pairwise", "Skip", "BufferWithCount"), P: []int{2}},
+			}
+			sc.SetInt("raw", g.PickInt(0, 0, 1, 2))
+			return sc
+		},
+		Run: func(e *Env) { families["C02.safe"].Run(e) },
+	})
+}
